@@ -171,6 +171,16 @@ func ZZC18_repo_sync() {
 	if zzBool("has_deny") {
 		s.Tags.Deny = []string{zzPatterns[zzInt("deny", 0, 2+3*zzTier())]}
 	}
+	// options that make processRef refresh an image even when the target already matches
+	on := true
+	switch zzInt("refresh_option", 0, 3) {
+	case 1:
+		s.Referrers = &on
+	case 2:
+		s.DigestTags = &on
+	case 3:
+		s.ForceRecursive = &on
+	}
 	backup := zzBool("backup")
 	if backup {
 		s.Backup = "bk-{{.Ref.Tag}}"
